@@ -240,7 +240,8 @@ Qed.
 
 (* ---- part 2: fillUntil and processBreakOption keep "recorded advance >= sum of the glyph advances" --------------- *)
 
-Definition Base (w : W) : Prop := SG (w_st w) /\ RA (w_st w) (w_runs w).
+(* (the input runs' own Advance is never read any more: a run placed whole has its advance recomputed from the glyphs) *)
+Definition Base (w : W) : Prop := SG (w_st w).
 Definition WA (w : W) : Prop := rsum (w_st w) (s_alt (w_sc w)) <= s_alt_adv (w_sc w).
 Definition WSv (w : W) : Prop := rsum (w_st w) (s_save (w_sc w)) <= s_save_adv (w_sc w).
 
@@ -272,7 +273,7 @@ Proof.
     assert (A1 : WA (iter_advance w)) by (destruct w; exact HA).
     destruct (IH _ _ _ B1 A1 H) as (B2 & A2 & L2 & F2). split; [exact B2|]. split; [exact A2|].
     split; [destruct w; exact L2|]. eapply sfr_trans; [|exact F2]. destruct w; unfold sfr; cbn; repeat split.
-  - destruct HB as [HS HR].
+  - pose proof HB as HS.
     destruct (o_off run <? w_start w).
     + destruct (map_run w ci run) as [w1| | |] eqn:MR; cbn [bind] in H; try discriminate.
       destruct (map_run_set _ _ _ _ MR) as [mp ->].
@@ -280,7 +281,7 @@ Proof.
       replace (w_st (set_mp w mp)) with (w_st w) in CR by (destruct w; reflexivity).
       destruct (cut_run_le _ _ _ _ _ _ _ _ HS CR) as (L1 & S1 & Ad & _).
       set (w2 := iter_advance (cand_append (set_st (set_mp w mp) st') rc)) in *.
-      assert (B1 : Base w2) by (unfold w2; destruct w; cbn in *; split; [exact S1|eapply RA_le; eauto]).
+      assert (B1 : Base w2) by (unfold w2, Base; destruct w; cbn in *; exact S1).
       assert (A1 : WA w2).
       { unfold w2, WA in *; destruct w; cbn -[rsum sum_adv out_glyphs] in *. apply WA_append; [|lia].
         pose proof (rsum_le _ _ (s_alt w_sc) L1). lia. }
@@ -288,11 +289,11 @@ Proof.
       split; [eapply st_le_trans; [exact L1|]; unfold w2 in L2; destruct w; exact L2|].
       eapply sfr_trans; [|exact F2]. unfold w2; destruct w; unfold sfr; cbn; repeat split.
     + cbn [bind fst snd] in H.
-      set (w2 := iter_advance (cand_append w run)) in *.
-      assert (B1 : Base w2) by (unfold w2; destruct w; cbn in *; split; assumption).
+      set (w2 := iter_advance (cand_append w (recompute_advance (w_st w) run))) in *.
+      assert (B1 : Base w2) by (unfold w2, Base; destruct w; cbn in *; assumption).
       assert (A1 : WA w2).
-      { pose proof (RA_znth _ _ (w_idx w) HR) as Q. rewrite <- Hrun in Q.
-        unfold w2, WA in *; destruct w; cbn -[rsum sum_adv out_glyphs] in *. apply WA_append; assumption. }
+      { unfold w2, WA in *; destruct w; cbn -[rsum sum_adv out_glyphs recompute_advance] in *. apply WA_append; [assumption|].
+        unfold recompute_advance, set_adv, out_glyphs. cbn. lia. }
       destruct (IH _ _ _ B1 A1 H) as (B2 & A2 & L2 & F2). split; [exact B2|]. split; [exact A2|].
       split; [unfold w2 in L2; destruct w; exact L2|].
       eapply sfr_trans; [|exact F2]. unfold w2; destruct w; unfold sfr; cbn; repeat split.
@@ -318,7 +319,7 @@ Proof.
   destruct v; cbn [negb] in H.
   2:{ inversion H; subst. split; [exact B2|]. split; [exact A2|]. split; [exact L2|]. split; [exact F2|congruence]. }
   destruct (cut_run _ run _ _ _ _) as [[st' rc]| | |] eqn:CR; cbn [bind fst snd] in H; try discriminate.
-  destruct (cut_run_le _ _ _ _ _ _ _ _ (proj1 B2) CR) as (L3 & S3 & Ad & _).
+  destruct (cut_run_le _ _ _ _ _ _ _ _ B2 CR) as (L3 & S3 & Ad & _).
   set (w3 := set_st (set_mp w1 mp) st') in *.
   assert (Hfin : w' = w3 /\ cand = rc).
   { destruct (lc_max lc <? _); [inversion H; auto|]. destruct (lc_truncating lc && _).
@@ -327,8 +328,7 @@ Proof.
   destruct Hfin as [-> ->].
   assert (St3 : w_st w3 = st') by (unfold w3; destruct w1; reflexivity).
   split; [|split; [|split; [|split]]].
-  - unfold Base. rewrite St3. split; [exact S3|]. replace (w_runs w3) with (w_runs (set_mp w1 mp)) by (unfold w3; destruct w1; reflexivity).
-    eapply RA_le; [exact L3|exact (proj2 B2)].
+  - unfold Base. rewrite St3. exact S3.
   - unfold WA in *. rewrite St3. replace (w_sc w3) with (w_sc (set_mp w1 mp)) by (unfold w3; destruct w1; reflexivity).
     pose proof (rsum_le _ _ (s_alt (w_sc (set_mp w1 mp))) L3). lia.
   - rewrite St3. eapply st_le_trans; [exact L2|exact L3].
@@ -377,13 +377,64 @@ Proof.
     assert (~ (b_wpos b < p < fst o + 1)) by (intros Q; rewrite (NL p Q) in Hl; discriminate). lia.
 Qed.
 
+Lemma nwb_prev_reissue : forall b b' ro, next_word_break b = (b', ro) -> b_isUnusedW b = true -> b_prevW b' = b_prevW b.
+Proof. intros b b' ro H F. unfold next_word_break in H. rewrite F in H. inversion H; reflexivity. Qed.
+
+(* the grapheme iterator: boundary q has not been handed out yet (ahead of the iterator, or pending re-issue) *)
+Definition UG (b : breaker) (q : Z) : Prop := b_gpos b < q \/ (b_gpos b = q /\ b_isUnusedG b = true).
+
+(* nextGraphemeBreak never loses a pending grapheme boundary: it is skipped (at or before previousWordBreak), handed
+   out, or still pending afterwards *)
+Lemma ngb_U : forall n fuel b b' ro, Bk n b -> next_grapheme_break fuel b = Ok (b', ro) ->
+  forall q, q <= n -> grapheme_boundary (b_attrs b) q = true -> UG b q ->
+    (q <= fst (b_prevW b) + 1 /\ 0 < fst (b_prevW b))
+    \/ match ro with
+       | Some o => q = fst o + 1 \/ (fst o + 1 < q /\ UG b' q)
+       | None => UG b' q /\ fst (b_unusedW b) + 1 < q
+       end.
+Proof.
+  intros n. induction fuel as [|fuel IH]; intros b b' ro HB H q Hq Hg HU; cbn [next_grapheme_break] in H; [discriminate|].
+  pose proof HB as (Hn & Hw & Hgp & Hp & Hu & Hun & Hug & Hugn & Hst & Hw3 & Hfw & Hfg).
+  set (rd := if b_isUnusedG b then (set_unusedG b (b_unusedG b) false, Some (b_unusedG b)) else next_grapheme_raw b) in H.
+  assert (R : exists b1 o, rd = (b1, Some o) /\ Bk n b1 /\ b_prevW b1 = b_prevW b /\ b_unusedW b1 = b_unusedW b /\ b_attrs b1 = b_attrs b
+              /\ b_isUnusedG b1 = false /\ b_gpos b1 = fst o + 1
+              /\ (q = fst o + 1 \/ (fst o + 1 < q /\ UG b1 q))).
+  { unfold rd. destruct (b_isUnusedG b) eqn:F.
+    - cbn [b2z] in Hfg. destruct Hfg as [Hfg|[Hfg1 Hfg2]]; [lia|].
+      eexists _, _. split; [reflexivity|]. split; [unfold Bk; cbn; try rewrite F in *; cbn [b2z] in *; repeat split; try lia|].
+      cbn. repeat split; auto; try lia.
+      destruct HU as [HU|[HU _]]; [right; split; [lia|left; cbn; lia]|left; lia].
+    - unfold next_grapheme_raw. destruct (iter_next (b_attrs b) (b_n b) fl_grapheme (b_gpos b)) as [p ok] eqn:E. destruct ok.
+      + apply iter_next_spec in E; [|exact Hgp]. destruct E as (E1 & E2 & E3).
+        destruct HU as [HU|[_ HU]]; [|congruence].
+        assert (Hqp : p <= q).
+        { destruct (Z_lt_le_dec q p) as [A|A]; [|exact A]. exfalso. unfold grapheme_boundary, attr_at in Hg. rewrite (E3 q) in Hg by lia. discriminate. }
+        eexists _, _. split; [reflexivity|]. split; [unfold Bk; cbn; try rewrite F in *; cbn [b2z] in *; repeat split; try lia|].
+        cbn. repeat split; auto; try lia.
+        destruct (Z.eq_dec q p) as [->|Hne]; [left; lia|right; split; [lia|left; cbn; lia]].
+      + exfalso. apply iter_next_false in E. destruct E as [_ E]. destruct HU as [HU|[_ HU]]; [|congruence].
+        unfold grapheme_boundary, attr_at in Hg. rewrite Hn in E. rewrite (E q) in Hg by lia. discriminate. }
+  destruct R as (b1 & o & -> & HB1 & S3 & S2 & S5 & Hf1 & Hg1 & Hq1).
+  destruct ((fst o <=? fst (b_prevW b1)) && (0 <? fst (b_prevW b1))) eqn:SK.
+  - apply andb_prop in SK. destruct SK as [SK1 SK2]. apply Z.leb_le in SK1. apply Z.ltb_lt in SK2. rewrite S3 in SK1, SK2.
+    destruct Hq1 as [->|[Hq1 Hq2]]; [left; split; lia|].
+    specialize (IH _ _ _ HB1 H q Hq ltac:(rewrite S5; exact Hg) Hq2). rewrite S3, S2 in IH. exact IH.
+  - right. destruct (fst (b_unusedW b1) <? fst o) eqn:GT; inversion H; subst b' ro; clear H.
+    + apply Z.ltb_lt in GT. rewrite S2 in GT. unfold UG; cbn.
+      destruct Hq1 as [->|[Hq1 _]]; (split; [|lia]); [right; split; [lia|reflexivity]|left; lia].
+    + destruct Hq1 as [->|[Hq1 _]]; [left; reflexivity|right; split; [exact Hq1|unfold UG; cbn; left; lia]].
+Qed.
+
 Section Loops.
 Variables (n : Z) (attrs : list Z) (st0 : store) (rs : list out).
 
 Definition lbV (p : Z) : Prop := line_boundary attrs p = true /\ CBall st0 rs p.
 Definition SK (w : W) : Prop := sk (w_st w) = sk st0 /\ w_runs w = rs /\ b_attrs (w_br w) = attrs.
 
-Definition OverQ (w : W) (l : list out) : Prop := forall p, w_start w < p < lend (w_start w) l -> lbV p -> False.
+(* valid grapheme boundaries, and the positions where the policy permits ending a line *)
+Definition gbV (p : Z) : Prop := grapheme_boundary attrs p = true /\ CBall st0 rs p.
+Definition brkV (w : W) (p : Z) : Prop := lbV p \/ (c_policy (w_cfg w) <> 1 /\ gbV p).
+Definition OverQ (w : W) (l : list out) : Prop := forall p, w_start w < p < lend (w_start w) l -> brkV w p -> False.
 Definition T0c (w : W) (l : list out) : Prop := l = [].
 Definition EndC (w : W) (l : list out) : Prop := lend (w_start w) l = n /\ c_cont (w_cfg w) = false.
 Definition BCl (lc : line_cfg) (w : W) (l : list out) : Prop :=
@@ -397,6 +448,15 @@ Definition No (w : W) : Prop :=
   has_best w = false -> forall p, w_start w < p -> lbV p ->
     b_wpos (w_br w) < p \/ (b_wpos (w_br w) = p /\ b_isUnusedW (w_br w) = true).
 Definition Ni (w : W) : Prop := has_best w = false -> forall p, w_start w < p -> lbV p -> b_wpos (w_br w) <= p.
+(* without a best line: no valid grapheme boundary beyond the line start has been handed out, and the options the
+   grapheme iterator skips (at or before previousWordBreak) lie before the line start *)
+Definition Gi (w : W) : Prop := has_best w = false ->
+  (forall q, w_start w < q <= n -> gbV q -> UG (w_br w) q)
+  /\ (fst (b_prevW (w_br w)) + 1 <= w_start w \/ fst (b_prevW (w_br w)) <= 0).
+Definition Go (w : W) : Prop := has_best w = false ->
+  (forall q, w_start w < q <= n -> gbV q -> UG (w_br w) q)
+  /\ (fst (b_prevW (w_br w)) + 1 <= w_start w \/ fst (b_prevW (w_br w)) <= 0)
+  /\ (b_isUnusedW (w_br w) = false -> fst (b_unusedW (w_br w)) + 1 <= w_start w \/ fst (b_unusedW (w_br w)) <= 0).
 
 Definition HBI_t : Prop := forall w opt lc w' r cand,
   Inv n w -> XI n w -> fst opt < n -> (s_alt (w_sc w) <> [] -> lend (w_start w) (s_alt (w_sc w)) <= fst opt) ->
@@ -406,7 +466,7 @@ Definition HBI_t : Prop := forall w opt lc w' r cand,
 Lemma BC_step : forall lc w w', BC lc w -> st_le (w_st w) (w_st w') -> s_best (w_sc w') = s_best (w_sc w) ->
   w_start w' = w_start w -> w_cfg w' = w_cfg w -> w_runs w' = w_runs w -> BC lc w'.
 Proof.
-  intros lc w w' H L Eb Es Ec Er l Hl. rewrite Eb in Hl. specialize (H l Hl). unfold BCl, EndC, T0c, OverQ in *.
+  intros lc w w' H L Eb Es Ec Er l Hl. rewrite Eb in Hl. specialize (H l Hl). unfold BCl, EndC, T0c, OverQ, brkV in *.
   rewrite Es, Ec. pose proof (ceil26_mono _ _ (lmeas_le _ _ (c_dir (w_cfg w)) l L)) as M.
   destruct H as [[H1 H2]|[H|H]]; [left|right; left; exact H|right; right; exact H].
   split; [lia|]. intros T. destruct (H2 T) as [H3|H3]; [left; lia|right; exact H3].
@@ -426,12 +486,13 @@ Definition Post (lc : line_cfg) (w' : W) : Prop := Base w' /\ BC lc w'.
 Lemma has_best_false_best : forall w w', s_best (w_sc w') = s_best (w_sc w) -> has_best w' = false -> has_best w = false.
 Proof. intros w w' E H. rewrite <- (has_best_same w w' E). exact H. Qed.
 
-Lemma inner_W : HBI_t -> forall fuel w lc w' d,
-  JT n w -> OrdI w -> 1 <= b_wpos (w_br w) <= n -> fst (b_unusedW (w_br w)) = b_wpos (w_br w) - 1 -> XI n w ->
-  SK w -> Base w -> WA w -> WSv w -> BC lc w -> Ni w ->
-  inner_loop fuel w lc = Ok (w', d) -> Post lc w'.
+Lemma inner_W : HBI_t -> forall fuel w wopt lc w' d,
+  JT n w -> OrdI w -> 1 <= b_wpos (w_br w) <= n -> fst (b_unusedW (w_br w)) = b_wpos (w_br w) - 1 ->
+  fst wopt = b_wpos (w_br w) - 1 -> XI n w ->
+  SK w -> Base w -> WA w -> WSv w -> BC lc w -> Ni w -> Gi w ->
+  inner_loop fuel w wopt lc = Ok (w', d) -> Post lc w'.
 Proof.
-  intros HBI. induction fuel as [|fuel IH]; intros w lc w' d HT HO HW HU HX HK HBs HA HSv HBC HNi H; cbn [inner_loop] in H; [discriminate|].
+  intros HBI. induction fuel as [|fuel IH]; intros w wopt lc w' d HT HO HW HU HWo HX HK HBs HA HSv HBC HNi HGi H; cbn [inner_loop] in H; [discriminate|].
   destruct (JT_checkpoint n w HT) as (T1 & Csv & Calt & Cbe & Cbr & Cbest).
   pose proof (XI_checkpoint n w HX) as XC1.
   assert (St1 : w_st (checkpoint w) = w_st w) by (destruct w; reflexivity).
@@ -451,13 +512,45 @@ Proof.
   assert (Cf2 : w_cfg (set_br w1 b1) = w_cfg w /\ w_runs (set_br w1 b1) = w_runs w) by (destruct Cf1; destruct w1; cbn in *; split; assumption).
   assert (WSv2 : WSv (set_br w1 b1)) by (unfold WSv in *; destruct w1; exact WSv1).
   assert (WA2 : WA (set_br w1 b1)) by (unfold WA in *; destruct w1; exact WA1).
-  assert (HBs2 : Base (set_br w1 b1)) by (unfold Base in *; rewrite St2, (proj2 Cf2); exact HBs).
+  assert (HBs2 : Base (set_br w1 b1)) by (unfold Base in *; rewrite St2; exact HBs).
   set (w2 := set_br w1 b1) in *.
   rewrite Calt in Q1. rewrite Csv in Q5. rewrite Cbest in Q4. rewrite Q7 in Q3.
   destruct (Bk_ug_n n _ Bb1) as (G1 & G2 & G3).
   set (b := w_br w) in *.
   destruct ro as [opt|].
-  2:{ inversion H; subst w' d. split; [exact HBs2|]. eapply BC_same; [exact HBC|exact St2|exact Q4|exact Q3|exact (proj1 Cf2)|exact (proj2 Cf2)]. }
+  2:{ (* the end of the loop: the best line so far, or the UAX #14 option that cannot fit (no valid boundary inside it) *)
+      cbv beta iota zeta in H.
+      assert (Rw2 : restore w2 = w2) by (unfold w2, w1; destruct w as [? ? ? ? ? ? ? ? ? [? ? ? ? ?] ?]; reflexivity).
+      unfold word_fallback in H.
+      destruct (negb (lc_truncating lc) && negb (has_best w2)) eqn:FB.
+      2:{ inversion H; subst w' d. split; [exact HBs2|]. eapply BC_same; [exact HBC|exact St2|exact Q4|exact Q3|exact (proj1 Cf2)|exact (proj2 Cf2)]. }
+      apply andb_prop in FB. destruct FB as [FB1 FB2]. apply negb_true_iff in FB1, FB2.
+      rewrite (has_best_same w w2 Q4) in FB2. rewrite Rw2 in H.
+      assert (Hord : s_alt (w_sc w2) <> [] -> lend (w_start w2) (s_alt (w_sc w2)) <= fst wopt).
+      { rewrite Q1. rewrite (JT_no_best_alt n w HT FB2). congruence. }
+      destruct (pbo_safe n w2 wopt lc (proj1 (proj1 T2)) XC2 ltac:(lia) Hord) as (w3 & r & cand & PB & XC3 & Sk3 & Fin3).
+      rewrite PB in H. cbn [bind] in H.
+      destruct (JP_pbo n w2 wopt lc w3 r cand (proj1 T2) ltac:(lia) Hord PB) as (P3 & F3 & BE3 & LE3 & C3 & L3).
+      destruct (pbo_W _ _ _ _ _ _ HBs2 WA2 PB) as (Bs3 & WA3 & Le3 & Sf3 & Ad3).
+      destruct F3 as (F3c & _ & F3s & _ & F3r & _ & F3b & F3v & F3best).
+      rewrite Q4 in F3best. rewrite Q3 in F3s. rewrite (proj1 Cf2) in F3c. rewrite (proj2 Cf2) in F3r. rewrite St2 in Le3.
+      assert (BC3 : BC lc w3) by (eapply BC_step; [exact HBC|exact Le3|exact F3best|exact F3s|exact F3c|exact F3r]).
+      cbv beta iota zeta in H.
+      assert (Hcase : (r = BreakInvalid /\ w' = restore w3 /\ d = false) \/ (r <> BreakInvalid /\ w' = mark_best w3 [cand] /\ d = false)).
+      { destruct r; injection H as <- <-; first [left; repeat split; reflexivity | right; repeat split; try reflexivity; discriminate]. }
+      clear H. destruct Hcase as [(Hr & -> & ->)|(Hr & -> & ->)].
+      - split; [unfold Base in *; destruct w3; exact Bs3|]. eapply BC_same; [exact BC3| | | | |]; destruct w3; reflexivity.
+      - split; [unfold Base in *; destruct w3; exact Bs3|].
+        intros l Hl. destruct (mark_best_proj w3 [cand]) as (M1 & M2 & M3 & M4). rewrite M4 in Hl. injection Hl as <-.
+        unfold BCl. right; right. split; [exact FB1|]. unfold OverQ. rewrite M3.
+        destruct (C3 Hr) as (_ & _ & C33). rewrite (lend_chain _ _ _ C33). intros p Hp Hv. rewrite F3s in Hp.
+        destruct Hv as [Hv|[_ Hv]].
+        + pose proof (HNi FB2 p ltac:(lia) Hv) as Q. fold b in Q. lia.
+        + (* a valid grapheme boundary inside: it was still pending, so nextGraphemeBreak would have handed it out *)
+          destruct (HGi FB2) as [GU GP]. fold b in GU, GP.
+          pose proof (ngb_U n _ _ _ _ B1 NG p ltac:(lia) ltac:(rewrite Cbr; destruct HK as (_ & _ & K3); fold b in K3; rewrite K3; exact (proj1 Hv))
+                        ltac:(rewrite Cbr; apply GU; [lia|exact Hv])) as Q.
+          rewrite Cbr in Q. fold b in Q. destruct Q as [[Qa Qb]|[_ Qc]]; lia. }
   destruct X as (X1 & X2 & X3 & X4 & X5 & X6 & X7 & X8).
   assert (X1' : fst opt = fst (b_unusedG b1)) by (rewrite X1; reflexivity).
   assert (Hord : s_alt (w_sc w2) <> [] -> lend (w_start w2) (s_alt (w_sc w2)) <= fst opt).
@@ -511,15 +604,23 @@ Proof.
     injection Hl as <-. unfold BCl. right; right. split; [exact Ht|]. unfold OverQ.
     replace (w_start (set_br (mark_best w3 [cand]) b')) with (w_start w3) by (destruct w3; reflexivity).
     destruct (C3 Hr) as (_ & _ & C33). rewrite (lend_chain _ _ _ C33). intros p Hp Hv. rewrite F3s in Hp.
-    pose proof (HNi (has_best_false_best w w3 F3best Hh) p ltac:(lia) Hv) as Q. fold b in Q, HU. lia. }
+    pose proof (has_best_false_best w w3 F3best Hh) as Hnb.
+    destruct Hv as [Hv|[_ Hv]].
+    - pose proof (HNi Hnb p ltac:(lia) Hv) as Q. fold b in Q, HU. lia.
+    - (* a valid grapheme boundary before the option: it was pending, so it would have been handed out first *)
+      destruct (HGi Hnb) as [GU GP]. fold b in GU, GP.
+      pose proof (ngb_U n _ _ _ _ B1 NG p ltac:(lia) ltac:(rewrite Cbr; destruct HK as (_ & _ & K3); fold b in K3; rewrite K3; exact (proj1 Hv))
+                    ltac:(rewrite Cbr; apply GU; [lia|exact Hv])) as Q.
+      rewrite Cbr in Q. fold b in Q. cbv beta iota in Q. destruct Q as [[Qa Qb]|[Qc|[Qc _]]]; lia. }
   assert (SBm : forall b', set_br (mark_best w3 [cand]) b' = set_br (mark_best w3 [cand]) b') by reflexivity.
   destruct r.
   - (* BreakInvalid *)
-    apply (IH (restore w3) lc w' d).
+    apply (IH (restore w3) wopt lc w' d).
     + apply JT_restore; exact P3.
     + unfold OrdI. rewrite R1, R2, R3, F3v, F3s, F3b. intros Hne. destruct (HO Hne) as [O|O]; fold b in O; [left; rewrite S3; exact O|right; lia].
     + rewrite R2, F3b, S1. exact HW.
     + rewrite R2, F3b, S1, S2. exact HU.
+    + rewrite R2, F3b, S1. exact HWo.
     + apply XI_restore; exact XC3.
     + destruct HK3 as (K1 & K2 & K3). split; [destruct w3; exact K1|]. split; [destruct w3; exact K2|]. rewrite R2. exact K3.
     + unfold Base in *. destruct w3; exact Bs3.
@@ -527,6 +628,16 @@ Proof.
     + unfold WSv in *. destruct w3; exact WSv3.
     + eapply BC_same; [exact BC3| | | | |]; destruct w3; reflexivity.
     + unfold Ni. rewrite (has_best_same w3 (restore w3) R4), R2, R3, F3b, F3s, S1. intros Hh. apply HNi. exact (has_best_false_best w w3 F3best Hh).
+    + (* the rejected grapheme option was not a valid boundary: nothing valid was consumed *)
+      unfold Gi. rewrite (has_best_same w3 (restore w3) R4), R2, R3, F3b, F3s, S3. intros Hh.
+      pose proof (has_best_false_best w w3 F3best Hh) as Hnb. destruct (HGi Hnb) as [GU GP]. fold b in GU, GP.
+      split; [|exact GP]. intros q Hq Hv.
+      pose proof (ngb_U n _ _ _ _ B1 NG q ltac:(lia) ltac:(rewrite Cbr; destruct HK as (_ & _ & K3); fold b in K3; rewrite K3; exact (proj1 Hv))
+                    ltac:(rewrite Cbr; apply GU; [lia|exact Hv])) as Q.
+      rewrite Cbr in Q. fold b in Q. cbv beta iota in Q. destruct Q as [[Qa Qb]|[Qc|[_ Qc]]]; [lia| |exact Qc].
+      exfalso. pose proof (HBI w2 opt lc w3 BreakInvalid cand (proj1 (proj1 T2)) XC2 ltac:(lia) ltac:(rewrite Q1, Q3; exact Hord) PB eq_refl) as HBIr.
+      destruct HBIr as [I|I]; [rewrite Q3 in I; lia|]. apply I. replace (fst opt + 1) with q by lia.
+      destruct HK as (K1 & K2 & _). rewrite (proj2 Cf2), K2. apply (CBall_sk st0); [rewrite St2; symmetry; exact K1|exact (proj2 Hv)].
     + exact H.
   - (* EndLine *)
     inversion H; subst w' d. destruct (pbo_endline _ _ _ _ _ PB) as [E1 E2]. destruct (C3 ltac:(discriminate)) as (_ & _ & C33).
@@ -548,11 +659,12 @@ Proof.
     pose proof (JT_set_br n _ _ T4 Mw) as T5.
     destruct (set_br_proj (mark_best w3 [cand]) (mark_word_unused b1)) as (U1 & U2 & U3 & U4 & U5).
     destruct (PW1 eq_refl) as [PWa PWb].
-    apply (IH (set_br (mark_best w3 [cand]) (mark_word_unused b1)) lc w' d).
+    apply (IH (set_br (mark_best w3 [cand]) (mark_word_unused b1)) wopt lc w' d).
     + exact T5.
     + unfold OrdI. rewrite U1, U2, U3, M1, M3. cbn. intros _. right. lia.
     + rewrite U2; cbn. rewrite S1; exact HW.
     + rewrite U2; cbn. rewrite S1, S2; exact HU.
+    + rewrite U2; cbn. rewrite S1; exact HWo.
     + apply XI_set_br. exact B1x.
     + destruct HK3 as (K1 & K2 & K3). split; [destruct w3; exact K1|]. split; [destruct w3; exact K2|]. rewrite U2. cbn. rewrite S5. destruct HK as (_ & _ & K4). exact K4.
     + unfold Base in *. destruct w3; exact Bs3.
@@ -560,6 +672,7 @@ Proof.
     + unfold WSv in *. destruct w3; exact WSv3.
     + apply BCfit; [discriminate|exact PWa|]. intros T. left. apply PWb. exact T.
     + unfold Ni. intros Hh. exfalso. rewrite (has_best_same (mark_best w3 [cand]) _ U4), has_best_mark in Hh. discriminate.
+    + unfold Gi. intros Hh. exfalso. rewrite (has_best_same (mark_best w3 [cand]) _ U4), has_best_mark in Hh. discriminate.
     + exact H.
   - (* CannotFit *)
     destruct (lc_truncating lc) eqn:LT; inversion H; subst w' d; [split; [exact Bs3|exact BC3]|].
@@ -568,10 +681,10 @@ Qed.
 
 Lemma outer_W : HBI_t -> forall fuel w lc w' d,
   JT n w -> OrdO w -> XI n w ->
-  SK w -> Base w -> WA w -> WSv w -> BC lc w -> No w ->
+  SK w -> Base w -> WA w -> WSv w -> BC lc w -> No w -> Go w ->
   outer_loop fuel w lc = Ok (w', d) -> Post lc w'.
 Proof.
-  intros HBI. induction fuel as [|fuel IH]; intros w lc w' d HT HO HX HK HBs HA HSv HBC HNo H; cbn [outer_loop] in H; [discriminate|].
+  intros HBI. induction fuel as [|fuel IH]; intros w lc w' d HT HO HX HK HBs HA HSv HBC HNo HGo H; cbn [outer_loop] in H; [discriminate|].
   destruct (JT_checkpoint n w HT) as (T1 & Csv & Calt & Cbe & Cbr & Cbest).
   pose proof (XI_checkpoint n w HX) as XC1.
   assert (St1 : w_st (checkpoint w) = w_st w) by (destruct w; reflexivity).
@@ -591,7 +704,7 @@ Proof.
   assert (Cf2 : w_cfg (set_br w1 b1) = w_cfg w /\ w_runs (set_br w1 b1) = w_runs w) by (destruct Cf1; destruct w1; cbn in *; split; assumption).
   assert (WSv2 : WSv (set_br w1 b1)) by (unfold WSv in *; destruct w1; exact WSv1).
   assert (WA2 : WA (set_br w1 b1)) by (unfold WA in *; destruct w1; exact WA1).
-  assert (HBs2 : Base (set_br w1 b1)) by (unfold Base in *; rewrite St2, (proj2 Cf2); exact HBs).
+  assert (HBs2 : Base (set_br w1 b1)) by (unfold Base in *; rewrite St2; exact HBs).
   set (w2 := set_br w1 b1) in *.
   rewrite Calt in Q1. rewrite Csv in Q5. rewrite Cbest in Q4. rewrite Q7 in Q3.
   destruct (Bk_ug_n n _ Bb1) as (G1 & G2 & G3).
@@ -649,42 +762,66 @@ Proof.
     replace (w_cfg (mark_best w3 [cand])) with (w_cfg w3) by (destruct w3; reflexivity).
     pose proof (cand_meas w3 cand WA3 (Ad3 Hr)) as CM. split; [lia|]. intros T. destruct (Ht T) as [Q|Q]; [left; lia|right].
     unfold EndC in *. rewrite M3. exact Q. }
-  assert (BCover : r <> BreakInvalid -> lc_truncating lc = false -> has_best w3 = false -> BC lc (mark_best w3 [cand])).
-  { intros Hr Ht Hh l Hl. rewrite M4 in Hl. injection Hl as <-. unfold BCl. right; right. split; [exact Ht|]. unfold OverQ. rewrite M3.
+  assert (BCover : r <> BreakInvalid -> lc_truncating lc = false -> has_best w3 = false -> policy_never w3 = true -> BC lc (mark_best w3 [cand])).
+  { intros Hr Ht Hh Hpn l Hl. rewrite M4 in Hl. injection Hl as <-. unfold BCl. right; right. split; [exact Ht|]. unfold OverQ. rewrite M3.
     destruct (C3 Hr) as (_ & _ & C33). rewrite (lend_chain _ _ _ C33). intros p Hp Hv. rewrite F3s in Hp.
-    pose proof (NiE (has_best_false_best w w3 F3best Hh) p ltac:(lia) Hv) as Q. lia. }
+    destruct Hv as [Hv|[Hpol _]].
+    - pose proof (NiE (has_best_false_best w w3 F3best Hh) p ltac:(lia) Hv) as Q. lia.
+    - unfold policy_never in Hpn. apply Z.eqb_eq in Hpn. apply Hpol. replace (w_cfg (mark_best w3 [cand])) with (w_cfg w3) by (destruct w3; reflexivity). exact Hpn. }
+  (* the grapheme registers after this read *)
+  assert (GiE : has_best w = false ->
+            (forall q, w_start w < q <= n -> gbV q -> UG b1 q)
+            /\ (fst (b_prevW b1) + 1 <= w_start w \/ fst (b_prevW b1) <= 0)).
+  { intros Hh. destruct (HGo Hh) as (GU & GP & GW). fold b in GU, GP, GW. split.
+    - intros q Hq Hv. specialize (GU q Hq Hv). unfold UG in *. rewrite S1, S3. exact GU.
+    - destruct (b_isUnusedW b) eqn:FB.
+      + rewrite (nwb_prev_reissue _ _ _ NW); [rewrite Cbr; exact GP|rewrite Cbr; exact FB].
+      + rewrite (X9 eq_refl). exact (GW eq_refl). }
   (* the grapheme loop entered from a state that carries the checkpoint of this iteration *)
   assert (G : forall wx, JP n wx -> s_save (w_sc wx) = s_alt (w_sc w) -> w_start wx = w_start w ->
               b_prevW (w_br wx) = b_prevW b1 -> b_wpos (w_br wx) = b_wpos b1 -> b_unusedW (w_br wx) = b_unusedW b1 ->
+              b_gpos (w_br wx) = b_gpos b1 -> b_isUnusedG (w_br wx) = b_isUnusedG b1 ->
               XI n wx -> SK wx -> Base wx -> WSv wx -> BC lc wx -> (has_best wx = false -> has_best w = false) ->
-              inner_loop (br_fuel wx) (restore wx) lc = Ok (w', d) -> Post lc w').
-  { intros wx Px Sx Stx Pwx Wx Ux Xx Kx Bx Svx BCx Hbx Hx. destruct (restore_proj wx) as (Rx1 & Rx2 & Rx3 & Rx4).
-    apply (inner_W HBI (br_fuel wx) (restore wx) lc w' d); [apply JT_restore; exact Px| | | |apply XI_restore; exact Xx| | | | | | |exact Hx].
+              inner_loop (br_fuel wx) (restore wx) opt lc = Ok (w', d) -> Post lc w').
+  { intros wx Px Sx Stx Pwx Wx Ux Gpx Gfx Xx Kx Bx Svx BCx Hbx Hx. destruct (restore_proj wx) as (Rx1 & Rx2 & Rx3 & Rx4).
+    apply (inner_W HBI (br_fuel wx) (restore wx) opt lc w' d); [apply JT_restore; exact Px| | | | |apply XI_restore; exact Xx| | | | | | | |exact Hx].
     - unfold OrdI. rewrite Rx1, Rx2, Rx3, Sx, Stx, Pwx. intros Hne. left. destruct (HO Hne) as [O1 O2]. fold b in O1, O2.
       destruct (b_isUnusedW b) eqn:FB; [cbn in O2; lia|]. rewrite (X9 eq_refl). exact O1.
     - rewrite Rx2, Wx. lia.
     - rewrite Rx2, Wx, Ux. lia.
+    - rewrite Rx2, Wx. lia.
     - destruct Kx as (K1 & K2 & K3). split; [destruct wx; exact K1|]. split; [destruct wx; exact K2|]. rewrite Rx2. exact K3.
     - unfold Base in *. destruct wx; exact Bx.
     - unfold WA, WSv in *. destruct wx; exact Svx.
     - unfold WSv in *. destruct wx; exact Svx.
     - eapply BC_same; [exact BCx| | | | |]; destruct wx; reflexivity.
-    - unfold Ni. rewrite (has_best_same wx (restore wx) Rx4), Rx2, Rx3, Wx, Stx. intros Hh. apply NiE. apply Hbx. exact Hh. }
+    - unfold Ni. rewrite (has_best_same wx (restore wx) Rx4), Rx2, Rx3, Wx, Stx. intros Hh. apply NiE. apply Hbx. exact Hh.
+    - unfold Gi. rewrite (has_best_same wx (restore wx) Rx4), Rx2, Rx3, Pwx, Stx. intros Hh. destruct (GiE (Hbx Hh)) as [GU GP].
+      split; [|exact GP]. intros q Hq Hv. specialize (GU q Hq Hv). unfold UG in *. rewrite Gpx, Gfx. exact GU. }
   destruct r.
-  - (* BreakInvalid *)
-    apply (IH (restore w3) lc w' d).
-    + apply JT_restore; exact P3.
-    + unfold OrdO. rewrite R1, R2, R3, F3v, F3s, F3b, FW. intros Hne. destruct (HO Hne) as [O1 O2]. fold b in O1. split; [lia|reflexivity].
-    + apply XI_restore; exact XC3.
-    + destruct HK3 as (K1 & K2 & K3). split; [destruct w3; exact K1|]. split; [destruct w3; exact K2|]. rewrite R2. exact K3.
+  - (* BreakInvalid: the option is discarded *)
+    cbv beta iota zeta in H. rewrite R2, F3b in H.
+    destruct (set_br_proj (restore w3) (discard_word b1)) as (D1 & D2 & D3 & D4 & D5).
+    apply (IH (set_br (restore w3) (discard_word b1)) lc w' d).
+    + apply JT_set_br; [apply JT_restore; exact P3|apply Bk_discard; assumption].
+    + unfold OrdO. rewrite D1, D2, D3, R1, R3, F3v, F3s. cbn [discard_word b_unusedW b_isUnusedW]. rewrite FW.
+      intros Hne. destruct (HO Hne) as [O1 O2]. fold b in O1, O2.
+      destruct (b_isUnusedW b) eqn:FB; [cbn in O2; lia|]. rewrite (X9 eq_refl). split; [exact O1|reflexivity].
+    + apply XI_set_br. apply XI_restore; exact XC3.
+    + destruct HK3 as (K1 & K2 & K3). split; [destruct w3; exact K1|]. split; [destruct w3; exact K2|]. rewrite D2. cbn. rewrite <- F3b. exact K3.
     + unfold Base in *. destruct w3; exact Bs3.
     + unfold WA, WSv in *. destruct w3; exact WSv3.
     + unfold WSv in *. destruct w3; exact WSv3.
     + eapply BC_same; [exact BC3| | | | |]; destruct w3; reflexivity.
-    + unfold No. rewrite (has_best_same w3 (restore w3) R4), R2, R3, F3b, F3s, FW. intros Hh p Hp Hv. left.
+    + unfold No. rewrite (has_best_same (restore w3) _ D4), (has_best_same w3 (restore w3) R4), D2, D3, R3, F3s.
+      cbn [discard_word b_wpos b_isUnusedW]. rewrite FW. intros Hh p Hp Hv. left.
       destruct (NU (has_best_false_best w w3 F3best Hh) p Hp Hv) as [Q1' Q2']. apply Q2'. intros ->.
       destruct (HBIr eq_refl) as [Q|Q]; [rewrite Q3 in Q; lia|]. apply Q.
       destruct HK as (K1 & K2 & _). rewrite (proj2 Cf2), K2. apply (CBall_sk st0); [rewrite St2; symmetry; exact K1|exact (proj2 Hv)].
+    + unfold Go. rewrite (has_best_same (restore w3) _ D4), (has_best_same w3 (restore w3) R4), D2, D3, R3, F3s.
+      cbn [discard_word b_prevW b_unusedW b_isUnusedW]. intros Hh.
+      destruct (GiE (has_best_false_best w w3 F3best Hh)) as [GU GP].
+      split; [intros q Hq Hv; specialize (GU q Hq Hv); unfold UG in *; cbn; exact GU|]. split; [exact GP|intros _; exact GP].
     + exact H.
   - (* EndLine *)
     inversion H; subst w' d. destruct (pbo_endline _ _ _ _ _ PB) as [E1 E2]. destruct (C3 ltac:(discriminate)) as (_ & _ & C33).
@@ -725,7 +862,7 @@ Proof.
     + inversion H; subst w' d. split; [exact Bn|exact BCn].
     + apply (G wn (proj1 T5));
         [rewrite U5; destruct w3; cbn in *; exact F3v|rewrite U3, R3; exact F3s|rewrite U2; reflexivity|rewrite U2; reflexivity
-        |rewrite U2; reflexivity|exact X5| |exact Bn| |exact BCn| |exact H].
+        |rewrite U2; reflexivity|rewrite U2; reflexivity|rewrite U2; reflexivity|exact X5| |exact Bn| |exact BCn| |exact H].
       * destruct HK3 as (K1 & K2 & K3). split; [unfold wn; destruct w3; exact K1|]. split; [unfold wn; destruct w3; exact K2|].
         rewrite U2. cbn. rewrite S5. destruct HK as (_ & _ & K4). exact K4.
       * unfold WSv, wn in *. destruct w3; exact WSv3.
@@ -747,11 +884,12 @@ Proof.
       * unfold WSv in *. destruct w3; exact WSv3.
       * exact BCm.
       * unfold No. intros Hh. exfalso. rewrite has_best_mark in Hh. discriminate.
+      * unfold Go. intros Hh. exfalso. rewrite has_best_mark in Hh. discriminate.
       * exact H.
   - (* CannotFit *)
-    destruct (policy_never w3).
+    destruct (policy_never w3) eqn:Hpn.
     + destruct (lc_truncating lc) eqn:LT; inversion H; subst w' d; [split; [exact Bs3|exact BC3]|].
-      split; [unfold Base in *; destruct w3; exact Bs3|]. apply BCover; [discriminate|reflexivity|apply PK2; reflexivity].
+      split; [unfold Base in *; destruct w3; exact Bs3|]. apply BCover; [discriminate|reflexivity|apply PK2; reflexivity|reflexivity].
     + apply (G w3 P3); auto; try (rewrite F3b; reflexivity). intros Hh. exact (has_best_false_best w w3 F3best Hh).
 Qed.
 
@@ -838,6 +976,13 @@ Definition WI (attrs : list Z) (w : W) : Prop :=
   forall p, w_start w < p -> line_boundary attrs p = true -> CBall (w_st w) (w_runs w) p ->
     b_wpos (w_br w) < p \/ (b_wpos (w_br w) = p /\ b_isUnusedW (w_br w) = true).
 
+(* the grapheme iterator has not handed out a valid grapheme boundary beyond the line start, and the options it skips
+   (at or before previousWordBreak; after the next read: at or before unusedWordBreak) lie before the line start *)
+Definition GI (n : Z) (attrs : list Z) (w : W) : Prop :=
+  (forall q, w_start w < q <= n -> grapheme_boundary attrs q = true -> CBall (w_st w) (w_runs w) q -> UG (w_br w) q)
+  /\ (fst (b_prevW (w_br w)) + 1 <= w_start w \/ fst (b_prevW (w_br w)) <= 0)
+  /\ (b_isUnusedW (w_br w) = false -> fst (b_unusedW (w_br w)) + 1 <= w_start w \/ fst (b_unusedW (w_br w)) <= 0).
+
 Definition width_stmt (attrs : list Z) (n : Z) (w : W) (mw : Z) (w' : W) (wl : wrapped) (line : list out) : Prop :=
   let tsrc := o_src (c_truncator (w_cfg w)) in
   let m := ceil26 (line_measure (w_st w') tsrc (c_dir (w_cfg w)) line) in
@@ -845,15 +990,17 @@ Definition width_stmt (attrs : list Z) (n : Z) (w : W) (mw : Z) (w' : W) (wl : w
   (has_truncator tsrc line = true ->
      s = e \/ m <= mw - ceil26 (o_adv (c_truncator (w_cfg w))))
   /\ (has_truncator tsrc line = false ->
-     m <= mw \/ (forall p, s < p < e -> line_boundary attrs p = true -> CBall (w_st w) (w_runs w) p -> False)).
+     m <= mw \/ (forall p, s < p < e ->
+                    (line_boundary attrs p = true \/ (c_policy (w_cfg w) <> 1 /\ grapheme_boundary attrs p = true)) ->
+                    CBall (w_st w) (w_runs w) p -> False)).
 
 Lemma wnl_width : forall n attrs w mw w' wl d line,
   HBI_t n -> CI n attrs w -> XB n w -> w_more w = true ->
-  SG (w_st w) -> RA (w_st w) (w_runs w) -> WI attrs w -> zlen (w_runs w) <= o_src (c_truncator (w_cfg w)) ->
+  SG (w_st w) -> WI attrs w -> GI n attrs w -> zlen (w_runs w) <= o_src (c_truncator (w_cfg w)) ->
   wrap_next_line w mw = Ok (w', wl, d) -> wl_line wl = Some line ->
   width_stmt attrs n w mw w' wl line.
 Proof.
-  intros n attrs w mw w' wl d line HBI HC HB Hm HS HR HWI Hts H Hline. unfold wrap_next_line in H. rewrite Hm in H. cbn [negb] in H.
+  intros n attrs w mw w' wl d line HBI HC HB Hm HS HWI HGI Hts H Hline. unfold wrap_next_line in H. rewrite Hm in H. cbn [negb] in H.
   destruct (CI_peek n attrs w HC) as (ci & run & PK). rewrite PK in H. cbn [negb] in H.
   destruct (CI_start_line n attrs w HC) as (T0 & O0 & A0 & N0 & Acc0).
   pose proof (XI_start_line n w HB) as X0.
@@ -864,14 +1011,17 @@ Proof.
   destruct (outer_loop_ok n _ _ _ _ _ (proj1 (proj1 T0)) OL) as [I2 O2].
   destruct O2 as (Oc & Ot & Os & Om & Or & On & Oa).
   assert (PW : Post n attrs (w_st w) (w_runs w) lc w2).
-  { apply (outer_W n attrs (w_st w) (w_runs w) HBI (loop_fuel (start_line w)) (start_line w) lc w2 d2 T0 O0 X0); [| | | | | |exact OL].
+  { apply (outer_W n attrs (w_st w) (w_runs w) HBI (loop_fuel (start_line w)) (start_line w) lc w2 d2 T0 O0 X0); [| | | | | | |exact OL].
     - split; [destruct w; reflexivity|]. split; [destruct w; reflexivity|exact A0].
-    - unfold Base. destruct w; split; assumption.
+    - unfold Base. destruct w; assumption.
     - unfold WA. destruct w; cbn. lia.
     - unfold WSv. destruct w; cbn. lia.
     - intros l Hl. destruct w; discriminate.
     - intros _ p Hp [Hv1 Hv2]. replace (w_br (start_line w)) with (w_br w) by (destruct w; reflexivity).
-      apply HWI; [destruct w; exact Hp|exact Hv1|exact Hv2]. }
+      apply HWI; [destruct w; exact Hp|exact Hv1|exact Hv2].
+    - intros _. destruct HGI as (G1 & G2 & G3). replace (w_br (start_line w)) with (w_br w) by (destruct w; reflexivity).
+      replace (w_start (start_line w)) with (w_start w) by (destruct w; reflexivity).
+      split; [intros q Hq [Hv1 Hv2]; apply G1; assumption|]. split; [exact G2|exact G3]. }
   destruct PW as [Bs2 BC2].
   replace (w_cfg (start_line w)) with (w_cfg w) in * by (destruct w; reflexivity).
   replace (w_runs (start_line w)) with (w_runs w) in * by (destruct w; reflexivity).
@@ -884,7 +1034,7 @@ Proof.
   assert (HL : forall l, s_best (w_sc w2) = Some l -> chain (w_start w2) l (lend (w_start w2) l)).
   { intros l Hl. destruct I2 as (_ & _ & _ & _ & HBo). destruct (HBo l Hl) as [e He]. rewrite (lend_chain _ _ _ He). exact He. }
   destruct (pp_first_spec _ _ _ _ HL PF) as (F1 & F2 & _ & F4 & _ & _ & _ & F8 & F9 & _).
-  destruct (pp_first_W _ _ _ _ (proj1 Bs2) PF) as (L1 & G1).
+  destruct (pp_first_W _ _ _ _ Bs2 PF) as (L1 & G1).
   injection H as H. destruct (pp_tail_W _ _ _ _ _ _ _ H) as (St' & Nx & Alt).
   destruct HC as (_ & _ & _ & _ & HBk & _ & Hst & HT & _). pose proof (proj1 HBk) as Hbn.
   rewrite F8, On, Hbn, F2, Ot in Alt.
@@ -926,7 +1076,9 @@ Proof.
     + left. lia.
     + exfalso. apply Hlc in B1. destruct B1 as [B1a B1b]. destruct (A2 B1a B1b) as [A2a _].
       unfold T0c in B2. subst l. unfold lend in A2a; cbn in A2a; lia.
-    + right. intros p Hp Hv1 Hv2. apply (B2 p); [rewrite Os; exact Hp|split; assumption].
+    + right. intros p Hp Hv1 Hv2. apply (B2 p); [rewrite Os; exact Hp|].
+      destruct Hv1 as [Hv1|[Hv0 Hv1]]; [left; split; assumption|right; split; [|split; assumption]].
+      first [exact Hv0 | rewrite Oc; exact Hv0 | rewrite <- Oc; exact Hv0].
   - (* the truncator was appended *)
     cbn [app] in A4. rewrite A1 in Hline. injection Hline as <-.
     pose proof (text_runs_snoc tsrc l' t A3) as [Q1 Q2].
@@ -978,40 +1130,59 @@ Qed.
 Lemma WI_prepare : forall attrs w cfg runs, WI attrs (prepare w cfg attrs runs 0 0).
 Proof. intros attrs w cfg runs p Hp _ _. left. cbn in *. lia. Qed.
 
-(* what the theorem says of one returned line (st = the store on entry of the call, st' = on return) *)
-Definition width_bound_stmt (attrs : list Z) (n : Z) (runs : list out) (st st' : store) (tsrc pdir tadv : Z)
-           (s e mw : Z) (line : list out) : Prop :=
-  let m := ceil26 (line_measure st' tsrc pdir line) in
-  (has_truncator tsrc line = true -> s = e \/ m <= mw - ceil26 tadv)
-  /\ (has_truncator tsrc line = false ->
-        m <= mw \/ (forall p, s < p < e -> line_boundary attrs p = true -> cluster_boundary st runs p = true -> False)).
+Lemma GI_prepare : forall n attrs w cfg runs, GI n attrs (prepare w cfg attrs runs 0 0).
+Proof. intros n attrs w cfg runs. unfold GI, UG; cbn. split; [intros q Hq _ _; left; lia|]. split; [right; lia|intros _; right; lia]. Qed.
 
-Lemma width_bound_calls : forall n w cfg attrs runs widths wk rs mw w' wl d line,
-  wf_runs (w_st w) runs n = true -> zlen attrs - 1 = n -> 1 <= n ->
-  run_calls (prepare w cfg attrs runs 0 0) widths = Ok (wk, rs) -> w_more wk = true ->
-  zlen runs <= o_src (c_truncator (w_cfg wk)) ->
-  nonneg_adv (w_st wk) = true -> adv_consistent (w_st wk) runs = true -> WI attrs wk ->
-  wrap_next_line wk mw = Ok (w', wl, d) -> wl_line wl = Some line ->
-  width_bound_stmt attrs n runs (w_st wk) (w_st w') (o_src (c_truncator (w_cfg wk))) (c_dir (w_cfg wk))
-                   (o_adv (c_truncator (w_cfg wk))) (w_start wk) (wl_next wl) mw line.
-Proof.
-  intros n w cfg attrs runs widths wk rs mw w' wl d line HW Ha Hn RC Hk Hts Hnn Hac HWI WN Hl.
-  destruct (run_calls_reach n attrs widths _ wk rs (CI_prepare n w cfg attrs runs (wf_runs_ok _ _ _ HW) Ha Hn) eq_refl
-              (XB_prepare n w cfg attrs runs HW) RC Hk) as (C & B & R).
-  change (w_runs (prepare w cfg attrs runs 0 0)) with runs in R.
-  pose proof (wnl_width n attrs wk mw w' wl d line (HBI_all n) C B Hk (nonneg_SG _ Hnn)
-                ltac:(rewrite R; apply adv_consistent_RA; exact Hac) HWI ltac:(rewrite R; exact Hts) WN Hl) as Q.
-  unfold width_stmt in Q. cbv zeta in Q. rewrite R in Q. destruct Q as [Q1 Q2]. unfold width_bound_stmt. cbv zeta. split; [exact Q1|].
-  intros Ht. destruct (Q2 Ht) as [Q|Q]; [left; exact Q|right]. intros p Hp Hlb Hcb. apply (Q p Hp Hlb).
-  destruct B as (BW & _). rewrite R in BW. eapply cluster_boundary_CBall; eauto.
-Qed.
-
-(* under policy Never the exception of width_bound_stmt is exactly Spec/Wrap.v single_unit *)
 Lemma forall_range_intro : forall f cnt lo, (forall p, lo <= p < lo + Z.of_nat cnt -> f p = true) -> forall_range lo cnt f = true.
 Proof.
   intros f. induction cnt as [|c IH]; intros lo H; cbn [forall_range]; [reflexivity|].
   rewrite (H lo) by lia. cbn [andb]. apply IH. intros p Hp. apply H. lia.
 Qed.
+(* "no permitted break position at a cluster boundary strictly inside" is Spec/Wrap.v single_unit, for every policy *)
+Lemma any_single_unit : forall attrs st rs n policy s e, e <= n ->
+  (forall p, s < p < e -> (line_boundary attrs p = true \/ (policy <> 1 /\ grapheme_boundary attrs p = true)) ->
+             cluster_boundary st rs p = true -> False) ->
+  single_unit attrs st rs n policy s e = true.
+Proof.
+  intros attrs st rs n policy s e He H. unfold single_unit, forall_between. apply forall_range_intro. intros p Hp.
+  unfold any_break_ok. replace (p =? n) with false by (symmetry; apply Z.eqb_neq; lia). cbn [orb].
+  destruct (cluster_boundary st rs p) eqn:C; [|rewrite andb_false_r; reflexivity]. rewrite andb_true_r.
+  apply negb_true_iff. apply orb_false_iff. split.
+  - destruct (line_boundary attrs p) eqn:L; [|reflexivity]. exfalso. apply (H p); [lia|left; exact L|exact C].
+  - destruct (policy =? 1) eqn:P; [reflexivity|]. cbn [negb andb]. apply Z.eqb_neq in P.
+    destruct (grapheme_boundary attrs p) eqn:G; [|reflexivity]. exfalso. apply (H p); [lia|right; split; [exact P|exact G]|exact C].
+Qed.
+
+(* what the theorem says of one returned line (st = the store on entry of the call, st' = on return) *)
+Definition width_bound_stmt (attrs : list Z) (n : Z) (runs : list out) (st st' : store) (tsrc pdir tadv policy : Z)
+           (s e mw : Z) (line : list out) : Prop :=
+  let m := ceil26 (line_measure st' tsrc pdir line) in
+  (has_truncator tsrc line = true -> s = e \/ m <= mw - ceil26 tadv)
+  /\ (has_truncator tsrc line = false -> m <= mw \/ single_unit attrs st runs n policy s e = true).
+
+Lemma width_bound_calls : forall n w cfg attrs runs widths wk rs mw w' wl d line,
+  wf_runs (w_st w) runs n = true -> zlen attrs - 1 = n -> 1 <= n ->
+  run_calls (prepare w cfg attrs runs 0 0) widths = Ok (wk, rs) -> w_more wk = true ->
+  zlen runs <= o_src (c_truncator (w_cfg wk)) ->
+  nonneg_adv (w_st wk) = true -> WI attrs wk -> GI n attrs wk ->
+  wrap_next_line wk mw = Ok (w', wl, d) -> wl_line wl = Some line ->
+  width_bound_stmt attrs n runs (w_st wk) (w_st w') (o_src (c_truncator (w_cfg wk))) (c_dir (w_cfg wk))
+                   (o_adv (c_truncator (w_cfg wk))) (c_policy (w_cfg wk)) (w_start wk) (wl_next wl) mw line.
+Proof.
+  intros n w cfg attrs runs widths wk rs mw w' wl d line HW Ha Hn RC Hk Hts Hnn HWI HGI WN Hl.
+  destruct (run_calls_reach n attrs widths _ wk rs (CI_prepare n w cfg attrs runs (wf_runs_ok _ _ _ HW) Ha Hn) eq_refl
+              (XB_prepare n w cfg attrs runs HW) RC Hk) as (C & B & R).
+  change (w_runs (prepare w cfg attrs runs 0 0)) with runs in R.
+  pose proof (wnl_width n attrs wk mw w' wl d line (HBI_all n) C B Hk (nonneg_SG _ Hnn)
+                HWI HGI ltac:(rewrite R; exact Hts) WN Hl) as Q.
+  destruct (wrap_next_line_J n attrs wk mw w' wl d C Hk WN) as ((Hnx & _) & _).
+  unfold width_stmt in Q. cbv zeta in Q. rewrite R in Q. destruct Q as [Q1 Q2]. unfold width_bound_stmt. cbv zeta. split; [exact Q1|].
+  intros Ht. destruct (Q2 Ht) as [Q|Q]; [left; exact Q|right]. apply any_single_unit; [lia|].
+  intros p Hp Hbr Hcb. apply (Q p Hp Hbr).
+  destruct B as (BW & _). rewrite R in BW. eapply cluster_boundary_CBall; eauto.
+Qed.
+
+(* under policy Never "no valid UAX #14 opportunity strictly inside" is exactly Spec/Wrap.v single_unit *)
 Lemma never_single_unit : forall attrs st rs n s e, e <= n ->
   (forall p, s < p < e -> line_boundary attrs p = true -> cluster_boundary st rs p = true -> False) ->
   single_unit attrs st rs n 1 s e = true.
